@@ -367,12 +367,21 @@ def abs_msg(A: "Abs", sd, tbs_bytes) -> str:
         inl = ".".join(str(A.h3_of(x)) for x in hi["inlineP2pcdRequest"]) or "e"
     else:
         inl = "-"
-    rc = str(A.cert(hi["requestedCertificate"])) if "requestedCertificate" in hi else "-"
+    try:
+        rc = str(A.cert(hi["requestedCertificate"])) if "requestedCertificate" in hi else "-"
+    except Exception:  # noqa: BLE001 - only read after a successful verification
+        rc = "-"
     sg = sd["signer"]
     if sg[0] == "digest":
         signer = "d" + str(A.id_of(sg[1]))
     elif sg[0] == "certificate":
-        signer = "c" + ",".join(str(A.cert(c)) for c in sg[1]) if sg[1] else "ce"
+        if len(sg[1]) == 1:
+            signer = "c" + str(A.cert(sg[1][0]))      # not encodable -> raises (the repository raises there too)
+        else:
+            try:
+                signer = "c" + ",".join(str(A.cert(c)) for c in sg[1]) if sg[1] else "ce"
+            except Exception:  # noqa: BLE001 - list length != 1 is refused before the certificates are looked at
+                signer = "ce"
     else:
         signer = "s"
     sig = sd["signature"]
@@ -446,3 +455,128 @@ def verify_line(A: "Abs", st: RealStation, data: bytes, payload_of=None):
     cid = str(A.id_of(conf.certificate_id)) if conf.certificate_id else "-"
     plain = str(A.payload(conf.plain_message)) if conf.report.value == 0 else "-"
     return f"rep:{conf.report.value} cid:{cid} plain:{plain} {st.dump(A)}", conf
+
+
+# ------------------------------------------------------------------------------------------------ routers
+
+
+class NoTimer:
+    """threading.Timer stand-in for geonet.router.Timer: never fires (CBF / LS retransmissions are not in scope)"""
+
+    def __init__(self, *a, **k):
+        self.daemon = True
+
+    def start(self):
+        pass
+
+    def cancel(self):
+        pass
+
+
+class RouterStation(RealStation):
+    """a RealStation behind a real geonet Router (capturing link layer, indication recorder, gate probe)"""
+
+    def __init__(self, backend, idx, roots=(), aas=(), ats=(), own=(), enabled=True, has_verify=True, has_sign=True,
+                 lat=415000000, lon=21000000):
+        import realstack as rs
+        from flexstack.geonet.mib import MIB, GnSecurity
+        from flexstack.geonet.router import Router
+        super().__init__(backend, roots, aas, ats, has_sign)
+        for c in own:
+            self.lib.add_own_certificate(c)
+        self.idx = idx
+        mib = MIB(itsGnLocalGnAddr=rs.gn_addr(idx), itsGnSecurity=GnSecurity.ENABLED if enabled else GnSecurity.DISABLED)
+        self.router = Router(mib, sign_service=self.ss, verify_service=self.vs if has_verify else None)
+        self.ll = rs.CaptureLL()
+        self.router.link_layer = self.ll
+        self.inds = []
+        self.router.register_indication_callback(self.inds.append)
+        self.gate = []
+        self.confirms = []
+        self.lat, self.lon = lat, lon
+        orig_common = self.router.process_common_header
+
+        def probe_common(packet, basic_header):
+            self.gate.append(bytes(packet))
+            return orig_common(packet, basic_header)
+        self.router.process_common_header = probe_common
+        orig_verify = self.vs.verify
+
+        def probe_verify(request):
+            conf = orig_verify(request)
+            self.confirms.append(conf)
+            return conf
+        self.vs.verify = probe_verify
+
+    def set_position(self, clock_ms):
+        from flexstack.geonet.position_vector import LongPositionVector, TST
+        self.router.ego_position_vector = LongPositionVector(
+            gn_addr=self.router.mib.itsGnLocalGnAddr, tst=TST.set_in_normal_timestamp_milliseconds(clock_ms),
+            latitude=self.lat, longitude=self.lon, pai=True)
+
+    def send(self, kind, payload: bytes, clock_ms, its_aid=None):
+        """originate one packet through the real Router; returns the emitted frame(s)"""
+        from flexstack.geonet.service_access_point import (GNDataRequest, PacketTransportType, HeaderType,
+                                                           GeoBroadcastHST, Area, CommonNH)
+        from flexstack.security.security_profiles import SecurityProfile
+        self.set_position(clock_ms)
+        if kind in ("cam", "vam", "other"):
+            prof = {"cam": SecurityProfile.COOPERATIVE_AWARENESS_MESSAGE, "vam": SecurityProfile.VRU_AWARENESS_MESSAGE,
+                    "other": SecurityProfile.NO_SECURITY}[kind]
+            aid = its_aid if its_aid is not None else {"cam": 36, "vam": 638, "other": 99}[kind]
+            req = GNDataRequest(upper_protocol_entity=CommonNH.BTP_B, data=payload, length=len(payload),
+                                security_profile=prof, its_aid=aid)
+        elif kind == "denm":
+            req = GNDataRequest(
+                upper_protocol_entity=CommonNH.BTP_B, data=payload, length=len(payload),
+                packet_transport_type=PacketTransportType(header_type=HeaderType.GEOBROADCAST,
+                                                          header_subtype=GeoBroadcastHST.GEOBROADCAST_CIRCLE),
+                area=Area(latitude=self.lat, longitude=self.lon, a=500, b=500, angle=0),
+                security_profile=SecurityProfile.DECENTRALIZED_ENVIRONMENTAL_NOTIFICATION_MESSAGE,
+                its_aid=its_aid if its_aid is not None else 37)
+        else:
+            raise ValueError(kind)
+        self.router.gn_data_request(req)
+        return self.ll.take()
+
+    def receive(self, frame: bytes):
+        """hand a frame to the real Router; returns (outcome, gate payloads, indications, confirm or None)"""
+        self.gate.clear()
+        self.inds.clear()
+        self.confirms.clear()
+        exc = None
+        try:
+            self.router.gn_data_indicate(frame)
+        except Exception as e:  # noqa: BLE001 - every exception type is an outcome
+            exc = e
+        gate = list(self.gate)
+        conf = self.confirms[-1] if self.confirms else None
+        if gate:
+            out = "pass"
+        elif exc is not None:
+            out = "raise:" + type(exc).__name__
+        else:
+            out = "drop"
+        return out, gate, list(self.inds), conf, exc
+
+
+def frame_tokens(A: "Abs", frame: bytes):
+    """abstraction of a GeoNetworking frame for the model's `gate`; None when the basic header is outside the modelled cases"""
+    if len(frame) < 4:
+        return None
+    ver, nh = frame[0] >> 4, frame[0] & 0x0F
+    if ver != 1:
+        return "V"
+    if nh == 0:
+        return "O"
+    if nh == 1:
+        return f"U {A.payload(frame[4:])}"
+    if nh == 2:
+        dec = decode_signed(frame[4:])
+        if dec is None:
+            return "P"
+        try:
+            return "S " + abs_msg(A, *dec)
+        except Exception:  # noqa: BLE001 - e.g. a signer certificate that decodes but does not re-encode
+            return "P"
+    return None
